@@ -52,7 +52,7 @@ PROPS["C01"] = {
     "level_text": "random operation histories (plain/hinted inserts, removals by key/iterator/front/back, clear, copy, assignment, bulk insert; random, ascending, descending, zig-zag and fill-then-drain key orders) against a sorted reference (multi)map with a full comparison after every operation, including find/contains/count for every key of the universe and a key-comparison counter for the depth bound",
     "level_note": "trusted: the reference model in harness/cont_tree.cpp, the comparison counter in harness/elem.hpp (counts operator<,>,== of the key type), ASan; the AVL structure oracle reads the tree's private fields (-fno-access-control): it checks the mechanism behind the depth bound (parent links, stored height/slope = recomputed, |slope| <= 1, tree order = iteration order) so that a missed re-balance fails at the operation that caused it",
     "technique": "stateful property-based testing against a reference sorted multimap, comparison-counting keys, ddmin shrinking",
-    "rule": "opfuzz: histories of 2..2*size ops over two Map (resp. MultiMap) objects with keys from a small universe; after every op size/isEmpty/forward+backward iteration/front/back/find/contains/count for all keys, returned iterators, addresses, the comparison bound and the AVL structure invariants are checked. "
+    "rule": "opfuzz: histories of 2..2*size ops over two Map (resp. MultiMap) objects with keys from a small universe (key orders: random, ascending, descending, zig-zag, fill-then-drain, one hot key that most entries share); after every op size/isEmpty/forward+backward iteration/front/back/find/contains/count for all keys, returned iterators, addresses, the comparison bound and the AVL structure invariants are checked. "
             "Non-trivial = (removal of an inner entry at n>=7, i.e. a node with two children is possible, AND a hinted insert that took the hint branch) OR a count() on a key with >=3 entries; distinct by case text hash.",
     "assumptions": ["MultiMap::remove(key) may remove any one entry of that key (the model learns which)", "a hinted MultiMap insert may land anywhere inside its equal-key run"],
     "parts": tree_parts({"cases": 60000, "maxsize": 30}, {"cases": 600000, "maxsize": 150, "workers": 16}),
@@ -93,7 +93,7 @@ PROPS["C03"] = {
     "level_text": "random operation histories over three List / Array / PoolList objects against a reference sequence with a full comparison after every operation; List::sort is checked in both directions (ascending and equal to the sorted multiset of the previous contents) on random, sorted, reverse, constant, two-valued and organ-pipe inputs",
     "level_note": "trusted: the reference model in harness/cont_seq.cpp, ASan",
     "technique": "stateful property-based testing against a reference sequence; sort checked as sorted permutation",
-    "rule": "opfuzz: histories of 2..2*size ops (append/prepend/insert at position or held iterator/remove by iterator, index, value/resize/reserve/clear/swap/copy/assign/bulk append+insert/sort/find) over three containers; after every op size, isEmpty, contents both ways, front/back, pointer view and capacity (Array), returned iterators/references, element addresses (List, PoolList) are compared with the model. "
+    "rule": "opfuzz: histories of 2..2*size ops (append/prepend/insert at position or held iterator/remove by iterator, index (also == size and beyond), value/resize/reserve/clear/swap/copy/assign incl. self/bulk append+insert/sort/find; PoolList elements are constructed in place through every append() arity, 0..7 arguments) over three containers; after every op size, isEmpty, contents both ways, front/back, pointer view and capacity (Array), returned iterators/references, element addresses (List, PoolList) are compared with the model. "
             "Non-trivial: List = a sort of >=8 elements with duplicates, or an insert at a held iterator after removals; Array = crossed >=2 capacity changes and removed from the middle; PoolList = an append after a removal (slot reuse); distinct by case text hash.",
     "assumptions": ["PoolList::front/back cannot be instantiated on the pinned tree (they reference a non-existing member) and are not used"],
     "parts": seq_parts({"cases": 50000, "maxsize": 30}, {"cases": 500000, "maxsize": 120, "workers": 16})
@@ -159,7 +159,7 @@ PROPS["C12"] = {
     "level_text": "random histories of connect / disconnect / emit / destroy / re-create over 3 emitters x 2 signals and 4 listeners x 2 slots per signal, where every slot invocation executes the next entry of a generated reaction script (connect, disconnect incl. itself, nested and recursive emit up to depth 3, delete a listener incl. the running one, delete an emitter incl. the emitting one); a model of connection records predicts the exact invocation sequence; probe emissions and a generated teardown order follow, under ASan and the allocation ledger",
     "level_note": "trusted: the connection-record model in harness/c12_callback.cpp, the live-listener registry (a call on a destroyed listener is reported from the pointer value alone), ASan; two identical live connections are never created (the statement does not say which one a disconnect removes)",
     "technique": "stateful property-based testing with a reaction script executed inside callbacks and an exact invocation-sequence model",
-    "rule": "opfuzz: 3..size top-level ops and 0..size reactions per case over 3 emitters x 3 signals (two of them share their signature and slot functions, so one slot can be connected to two signals of one emitter) and 4 listeners, concentrated on one signal, or on the two sharing signals, so that slot chains get long. Oracle: each invocation must be the next connected record of the innermost running emission (connected before the outermost running emission of that signal began, still connected at its turn), no call on a destroyed listener or from a destroyed emitter, no connected record left uninvoked when an emission ends, probe emissions match, teardown in generated order is clean (ASan, ledger). "
+    "rule": "opfuzz: 3..size top-level ops and 0..size reactions per case over 3 emitters x 10 signals (no argument, one int, a second no-argument signal that shares the slot functions of the first, and 2..8 ints: one signal per emit() overload) and 4 listeners with two slots per signature; a connection may exist up to three times, concentrated on one signal, or on the two sharing signals, so that slot chains get long. Oracle: each invocation must be the next connected record of the innermost running emission (connected before the outermost running emission of that signal began, still connected at its turn), no call on a destroyed listener or from a destroyed emitter, no connected record left uninvoked when an emission ends, probe emissions match, teardown in generated order is clean (ASan, ledger). "
             "Non-trivial = (a reaction changed the connection set of the signal being emitted AND three emissions were nested) OR an emitter/listener was destroyed inside a slot; distinct by case text hash.",
     "assumptions": ["no duplicate live connections", "an object that is both emitter and listener is not generated"],
     "parts": [opf("callback", ["harness/c12_callback.cpp"], {"cases": 1500000, "maxsize": 30}, {"cases": 3000000, "maxsize": 80, "workers": 16})],
@@ -193,7 +193,7 @@ PROPS["C16"] = {
     "level_text": "generated element trees (well-formed names, up to 4 attributes with arbitrary NUL-free values, non-blank non-adjacent text nodes, depth up to 1000) are serialised and parsed back; the same trees are written as documents with the other quote style, numeric and named references, comments wherever white space is allowed (incl. next to text) and processing instructions with line breaks; truncations and byte flips are parsed for totality and error/element positions; copies of Xml::Variant values are checked for independence against a value model; a libFuzzer target with the same oracles runs on arbitrary NUL-free bytes in exactly sized heap blocks",
     "level_note": "trusted: the tree model and comparison in harness/xml_common.hpp, ASan/UBSan, libFuzzer; documents with comments are compared modulo white space in text (a comment may split a text node and white space next to a comment is not significant)",
     "technique": "property-based round-trip testing on generated element trees and documents plus coverage-guided fuzzing with in-target oracle",
-    "rule": "opfuzz 'tree': flat op lists (open, attr, text, close, and v_* ops on three Xml::Variant variables) build a tree under a root element; oracle: parse(toString(e)) has the same names, attribute order/values, text and nesting; decorated document parses to the same tree (exact without comments, white-space-insensitive text with comments); element line/column inside the text; all truncations of documents <=150 bytes (20 sampled beyond) and 10 flips: no crash, error position inside the text; Xml::Variant variables equal their value model after every v_* op. "
+    "rule": "opfuzz 'tree': flat op lists (open, attr, text, close, and v_* ops on three Xml::Variant variables) build a tree under a root element (2 %: chains 50..1000 deep, 1 %: 900..2700 empty siblings); oracle: parse(toString(e)) has the same names, attribute order/values, text and nesting; decorated document parses to the same tree (exact without comments, white-space-insensitive text with comments); element line/column inside the text; all truncations of documents <=150 bytes (20 sampled beyond) and 10 flips: no crash, error position inside the text; Xml::Variant variables equal their value model after every v_* op. "
             "Non-trivial = (an attribute value with quote, ampersand, angle bracket or line break AND depth >=2) OR a document with a comment directly followed by text. libFuzzer 'fuzz': non-trivial = a parsed input in the round-trip domain with such an attribute value and nesting; distinct by input hash.",
     "assumptions": ["nesting depth <= 1000", "NUL-free input", "lines are separated by CR LF, CR or LF", "attribute names unique per element"],
     "parts": [opf("tree", ["harness/c16_xml.cpp"], {"cases": 60000, "maxsize": 40}, {"cases": 600000, "maxsize": 120, "workers": 16}, deps=["harness/xml_common.hpp", "harness/json_common.hpp"]),
@@ -207,7 +207,7 @@ PROPS["C17"] = {
     "level_text": "SHA-256 digests for every message length 0..300 (quick 0..160) with four kinds of content, every two-way chunking of every length <=130 (exhaustive sub-space), sampled two/three-way chunkings with empty chunks up to 300, sampled lengths up to 70000, hasher reuse after finalize() and reset(), HMAC for every key length 0..200 x boundary message lengths and random pairs; each result is compared with Python's hashlib / hmac",
     "level_note": "trusted: CPython's hashlib.sha256 and hmac as the FIPS 180-4 / RFC 2104 reference, the record format of harness/c17_sha.cpp, ASan on exactly sized input copies",
     "technique": "enumerated and sampled inputs with a differential oracle (Python hashlib/hmac)",
-    "rule": "harness/c17_sha.cpp enumerates the computations listed above (content from a PRNG seeded by VERIF_SEED) and prints one record each; oracle/c17.py recomputes every digest. Non-trivial = a record whose message length, chunk boundary or key length lies within +-1 of a multiple of 64 or of the 56 byte padding threshold; distinct by record text.",
+    "rule": "harness/c17_sha.cpp enumerates the computations listed above (content from a PRNG seeded by VERIF_SEED), plus one message of 2^29+5 bytes fed in 1 MiB pieces (thorough: 2^29-1, 2^29, 2^32+3), and prints one record each; oracle/c17.py recomputes every digest. Non-trivial = a record whose message length, chunk boundary or key length lies within +-1 of a multiple of 64 or of the 56 byte padding threshold; distinct by record text.",
     "assumptions": ["CPython hashlib/hmac are correct"],
     "parts": [{"name": "sha", "kind": "custom", "module": "c17", "tiers": {"quick": {}, "thorough": {}}}],
 }
@@ -234,7 +234,7 @@ PROPS["C09"] = {
     "level_text": "(handles) random single-threaded histories of copy / assign (incl. self) / swap / modify / destroy over String, Variant, Xml::Variant and RefCount::Ptr handles against a value model under ASan and the allocation ledger; (threads) 2-4 logical threads, each owning its handles to a common payload, run generated programs under sampled schedules of the deterministic scheduler (uniform, few preemptions, PCT, round robin), with decision points at every atomic / volatile access; a quarantining ledger reports double release, write after release and leaks exactly",
     "level_note": "trusted: vsched/rt.cpp (sequentially consistent interleaving at instrumented granularity: atomics, volatile accesses, synchronisation calls), the ledger in engine/pbt.hpp, thread-local value models; weak-memory reorderings are out of reach; schedules are sampled, not enumerated",
     "technique": "stateful property-based testing (single thread) plus randomised deterministic scheduling of generated thread programs (schedule = generated input)",
-    "rule": "threads: case = kind of handle (String, Variant string, Variant list, RefCount::Ptr, Xml::Variant), 2-4 threads, per-thread op lists over 3 handle slots (copy, destroy, assign, modify, read, clear), 12 schedules per case (60 when replaying). Oracle: every handle always reads the value its own thread gave it, objects are destroyed exactly once, no double free / write after free / leak, no deadlock. "
+    "rule": "threads: case = kind of handle (String, Variant string, Variant list, RefCount::Ptr, Xml::Variant), 2-4 threads, per-thread op lists over 3 handle slots (copy, destroy, assign, modify - for String: append, resize+poke, printf, case mapping, reserve -, read, clear; payloads of 6, 23 and 311 bytes), 12 schedules per case (60 when replaying). Oracle: every handle always reads the value its own thread gave it, objects are destroyed exactly once, no double free / write after free / leak, no deadlock. "
             "Non-trivial(threads) = some schedule of the case had two consecutive operations on the same reference counter by different threads. handles: 5 handle slots of one kind, ops make / copy / assign (incl. self) / swap (Variant::swap, Ptr::swap) / modify / clear / destroy / raw pointer assignment; every handle reads its model value after every op, RefCount objects are destroyed exactly when their last handle goes; non-trivial(handles) = a swap or assignment between handles of different payloads followed by a destruction; distinct by case text hash.",
     "assumptions": ["each handle is used by one thread only (the statement's proviso)", "sequential consistency"],
     "parts": [opf("handles", ["harness/c09_handles.cpp"], {"cases": 300000, "maxsize": 30}, {"cases": 3000000, "maxsize": 60, "workers": 16}),
@@ -262,7 +262,7 @@ PROPS["C11"] = {
     "level_text": "one primitive per case (Mutex, Semaphore, Signal, Monitor, Thread), 2-4 logical threads with generated programs of lock (nested) / tryLock / unlock, signal / wait / timed wait / tryWait, set / reset / wait / timed wait, guarded wait / set / tryLock, start (function and member) / join, under sampled schedules of the deterministic scheduler with generated spurious condition wake-ups, EINTR on timed semaphore waits and time-outs that fire at any moment in virtual time; the contracts are history invariants evaluated after every operation and, for blocked threads, at the scheduler's quiescence verdict",
     "level_note": "trusted: the pthread / semaphore model inside vsched/rt.cpp (mutex ownership and recursion attribute, condition waiter sets, semaphore counts, virtual clock) which replaces glibc; what is verified is libnstd's use of these primitives (flag protocols, loops, deadline arithmetic, attributes); schedules are sampled",
     "technique": "randomised deterministic scheduling of generated thread programs with history invariants and quiescence judgement",
-    "rule": "case = primitive, initial value, 2-4 thread programs, 10 schedules (60 when replaying) cycling through four strategies. Invariants: Mutex occupancy <=1 with re-entrance, tryLock fails only when another thread owns it, no blocked thread at the end; Semaphore successful waits <= initial + signals, no waiter blocked at quiescence with positive count; Signal wait true only if set since the last reset, no waiter blocked at quiescence while set; Monitor successful waits <= sets and a set issued while a waiter has the monitor releases a waiter; timed waits return false only after their time-out in virtual time; Thread::join returns the function's result after its last step. "
+    "rule": "case = primitive, initial value, 2-4 thread programs (15 % of the Mutex cases: no shared object, every thread constructs and uses its own Mutex - the first mutexes of the process), 10 schedules (60 when replaying) cycling through four strategies. Invariants: Mutex occupancy <=1 with re-entrance, tryLock fails only when another thread owns it, no blocked thread at the end; Semaphore successful waits <= initial + signals, no waiter blocked at quiescence with positive count; Signal wait true only if set since the last reset, no waiter blocked at quiescence while set; Monitor successful waits <= sets and a set issued while a waiter has the monitor releases a waiter; timed waits return false only after their time-out in virtual time; Thread::join returns the function's result after its last step. "
             "Non-trivial = a schedule with >=3 context switches and consecutive operations of different threads on one location inside the primitive, or a generated spurious wake-up / time-out / EINTR event; distinct by case text hash.",
     "assumptions": ["sequential consistency", "POSIX semantics of the modelled primitives"],
     "parts": [opf("sync", ["harness/c11_sync.cpp"], {"cases": 6000, "maxsize": 20}, {"cases": 80000, "maxsize": 32, "workers": 16}, flavour="sched", deps=["harness/vs_common.hpp"]),
